@@ -284,6 +284,11 @@ def run_scenario(ex, fnode, c, scen):
         elif kind == 'throw' and not c.may_throw:
             ex.oblige('throws', 'nothrow', z3.BoolVal(False), None, props=c.props_for('throws'))
         if kind == 'return':
+            for fld, tgt in c.binds.items():
+                cur = ex.store['this'].f.get(fld)
+                want = ex.calls.bind_target(ex, tgt, names, this_path)
+                ok = isinstance(cur, RefVal) and ex.resolve(cur.path).same(want)
+                ex.oblige('ensures', 'binds_' + fld, z3.BoolVal(bool(ok)), None, props=c.props_for('binds'))
             for lab, e in c.ensures:
                 ex.oblige('ensures', lab, S.spec_eval(e, env_post, ex2), None, props=c.props_for(lab))
         else:
